@@ -47,6 +47,11 @@ DeclCase(form, text, sym, e) == [form |-> form, text |-> text, sym |-> sym, expe
 PlainCases   == { DeclCase("plain", Written(b, w) \o " x;", "x", Exp(b, w, FALSE)) : b \in Bases, w \in AllW }
               \cup { DeclCase("plain", b \o " x;", "x", Exp(b, NoW, FALSE)) : b \in Unsized }
 ConstCases   == { DeclCase("const", "const " \o Written(b, w) \o " x = 1;", "x", Exp(b, w, TRUE)) : b \in {"int", "uint", "float"}, w \in AllW }
+(* const-ness of the other declarable types, registers included *)
+ConstRegCases == { DeclCase("const", "const bit[" \o w \o "] x = \"0\";", "x", [type |-> "BitArray(D1(" \o w \o "), True)", fits |-> TRUE, wd |-> w]) : w \in {"1", "4", "8", "64"} }
+              \cup { DeclCase("const", "const bit x = 1;", "x", Exp("bit", NoW, TRUE)), DeclCase("const", "const bool x = true;", "x", Exp("bool", NoW, TRUE)),
+                     DeclCase("const", "const duration x = 10ns;", "x", Exp("duration", NoW, TRUE)) }
+              \cup { DeclCase("const", "const " \o Written(b, w) \o " x = 1;", "x", Exp(b, w, TRUE)) : b \in {"angle", "complex"}, w \in {NoW, [d |-> "32", fits |-> TRUE]} }
 InitCases    == { DeclCase("init", Written(b, w) \o " x = 1;", "x", Exp(b, w, FALSE)) : b \in {"int", "uint", "float"}, w \in AllW }
 QubitCases   == { DeclCase("qubit", Written("qubit", w) \o " x;", "x", Exp("qubit", w, FALSE)) : w \in AllW }
 IOCases      == { DeclCase("io", dir \o " " \o Written(b, w) \o " x;", "x", Exp(b, w, FALSE)) : dir \in {"input", "output"}, b \in {"int", "float", "bit", "angle"}, w \in AllW }
@@ -230,6 +235,12 @@ MaxW(a, b) == IF a.d = "" \/ b.d = "" THEN NoW ELSE IF WNum(a) >= WNum(b) THEN a
 Common(A, B) == IF A.b = B.b THEN Rendered(A.b, MaxW(A.w, B.w), FALSE)
                 ELSE IF Rank(A.b) > Rank(B.b) THEN Rendered(A.b, A.w, FALSE)
                 ELSE IF Rank(B.b) > Rank(A.b) THEN Rendered(B.b, B.w, FALSE) ELSE ""
+(* measurement of a SLICE or index SET of a register: several qubits are measured, so the value is a bit register, never a single bit *)
+IdxMeasRows == { [stmt |-> st, form |-> "measure-slice", pre |-> "qubit[3] q; ", text |-> "qubit[3] q; " \o (IF st = "decl" THEN tt.w \o " x = measure q" \o ix \o ";" ELSE tt.w \o " x; x = measure q" \o ix \o ";"),
+                  target |-> tt.r, value |-> "BitArray(", must |-> FALSE, tb |-> "bit[]", vb |-> "bit[]", tw |-> tt.w, vw |-> ix] :
+                  st \in {"decl", "assign"}, ix \in {"[0:1]", "[{0, 2}]", "[0:2]"},
+                  tt \in { [w |-> "bit", r |-> "Bit(False)"], [w |-> "bit[2]", r |-> "BitArray(D1(2), False)"], [w |-> "bit[3]", r |-> "BitArray(D1(3), False)"] } }
+
 (* arithmetic expressions: every operator over every pair of numeric operand types *)
 ArithOps == {"+", "-", "*", "/", "%", "&", "|", "^", "<<", ">>"}
 NumTypes == { T \in ScalarTypes : Numeric(T) }
@@ -268,11 +279,11 @@ ArithFormRows ==
            common |-> Common2(l.T, B), intdiv |-> (o = "/" /\ Rank(l.T.b) = 1 /\ Rank(B.b) = 1)] :
        o \in ArithOps, B \in NumTypes, L \in LitTypes }
 
-C09Cases == PlainCases \cup ConstCases \cup InitCases \cup QubitCases \cup IOCases \cup ForCases \cup ParamCases \cup ConstIdCases \cup ScopedConstIdCases \cup ShadowConstIdCases \cup ScopeCases \cup BadCases \cup SpellingCases \cup ParamDesignatorCases \cup BadIdCases \cup NegConstCases
+C09Cases == PlainCases \cup ConstCases \cup ConstRegCases \cup InitCases \cup QubitCases \cup IOCases \cup ForCases \cup ParamCases \cup ConstIdCases \cup ScopedConstIdCases \cup ShadowConstIdCases \cup ScopeCases \cup BadCases \cup SpellingCases \cup ParamDesignatorCases \cup BadIdCases \cup NegConstCases
 ASSUME \A x \in C09Cases : PrintT(<<"DECL", ToJson(x)>>)
 ASSUME \A x \in GateCases \cup DefCases \cup DefRetCases : PrintT(<<"SIG", ToJson(x)>>)
 ASSUME \A x \in CollisionCases : PrintT(<<"LISTING", ToJson(x)>>)
-ASSUME \A x \in RowsOK \cup LitRows \cup MeasRows \cup RegRowsOK : PrintT(<<"ROW", ToJson(x)>>)
+ASSUME \A x \in RowsOK \cup LitRows \cup MeasRows \cup RegRowsOK \cup IdxMeasRows : PrintT(<<"ROW", ToJson(x)>>)
 ASSUME \A x \in ArithRows \cup ArithFormRows : PrintT(<<"ARITH", ToJson(x)>>)
 
 VARIABLE v
